@@ -1,7 +1,79 @@
 import Dhcp.Driver.Hex
-/- Line-protocol operations of the `Server` family (stub until the model lands). -/
-namespace Dhcp.Driver
+import Dhcp.Driver.V4
+import Dhcp.Driver.V6
+import Dhcp.Server
+/-
+  Line-protocol operations of the `Server` family (property C14).
 
-def stepServer (_op : String) (_args : List String) : Option String := none
+    serve4 [w=<k>] <event> <event> …
+    serve6 [w=<k>] <event> <event> …
+
+  event (fields separated by `:`):
+    e                          ReadFrom returns an error
+    c                          the server is closed while ReadFrom waits (⇒ ReadFrom returns an error)
+    d:<hex>:<peer>             a datagram (`-` = empty read, n = 0) from <peer>
+  peer:
+    udp:<iphex|nil>:<port>:<zonehex>   a *net.UDPAddr
+    udpnil                             an interface holding a nil *net.UDPAddr
+    other:<id>                         some other net.Addr implementation
+    nil                                the nil interface
+
+  Output: `ok exit=<returned|blocked|panic> n=<k>` followed by ` | <idx> <peer> <message>` per
+  handler invocation in loop order; <message> is the canonical packet of the `v4dec` op (serve4)
+  or the canonical term of the `v6dec` op (serve6): both servers' message CONTENT is the model
+  decoder's (`dec4` / `dec6`) output on the first 4096 bytes of the datagram.
+-/
+namespace Dhcp.Driver
+open Dhcp Dhcp.Server Dhcp.V6
+
+def showPeer : Peer → String
+  | .udp ip port zone => s!"udp:{hexOpt ip}:{port}:{hex zone}"
+  | .udpNilPtr => "udpnil"
+  | .other id => s!"other:{id}"
+  | .nilAddr => "nil"
+
+def parsePeer : List String → Option Peer
+  | ["udp", ip, port, zone] => do
+    let ip ← unhexOpt ip
+    let port ← port.toNat?
+    let zone ← unhex zone
+    pure (.udp ip port zone)
+  | ["udpnil"] => some .udpNilPtr
+  | ["other", id] => do
+    let id ← id.toNat?
+    pure (.other id)
+  | ["nil"] => some .nilAddr
+  | _ => none
+
+def parseEvent (tok : String) : Option ReadResult :=
+  match tok.splitOn ":" with
+  | ["e"] => some .readError
+  | ["c"] => some .readError
+  | "d" :: h :: peer => do
+    let b ← unhex h
+    let p ← parsePeer peer
+    pure (.datagram b p)
+  | _ => none
+
+def showExit : Exit → String
+  | .returned => "returned"
+  | .blocked => "blocked"
+  | .panicked => "panic"
+
+def showOutcome {α} (sh : α → String) (o : Outcome α) : String :=
+  s!"ok exit={showExit o.exit} n={o.invocations.length}" ++
+    String.join (o.invocations.map (fun v => s!" | {v.idx} {showPeer v.peer} {sh v.msg}"))
+
+def stepServer (op : String) (args0 : List String) : Option String :=
+  -- `w=<k>` (how long the harness's handlers block) is not part of the model's input
+  let args := args0.filter (fun a => !a.startsWith "w=")
+  match op with
+  | "serve4" => do
+    let evs ← args.mapM parseEvent
+    pure (showOutcome showPkt4 (serve4 evs))
+  | "serve6" => do
+    let evs ← args.mapM parseEvent
+    pure (showOutcome (fun m => (sxMsg m).show) (serve6dec evs))
+  | _ => none
 
 end Dhcp.Driver
